@@ -176,6 +176,8 @@ package mem
 //@   ensures int(address) + int(len) > int(s.capacity) ==> result1 != nil
 //@   label C20.read.ok
 //@   ensures int(address) + int(len) <= int(s.capacity) ==> result1 == nil && len(result0) == int(len) && fresh(result0)
+//@   label C20.read.noalias
+//@   ensures result1 == nil ==> forall k uint64 :: k in s.data ==> ref(s.data[k].data) != ref(result0)
 //@   label C20.read.error.unchanged
 //@   ensures result1 != nil ==> nothingAssigned()
 //@   label C20.read.wf
